@@ -175,6 +175,15 @@ def spec_wiring(case, pyt):
     return call, outs
 
 
+def parse_model(out):
+    import ast as _ast
+    m = re.search(r"=\s(.*?)\n\s+: list", out, re.S)
+    if not m:
+        raise RuntimeError("cannot parse model output: " + out[-400:])
+    txt = re.sub(r"%(Z|nat|N)\b", "", m.group(1)).replace(";", ",").replace("true", "True").replace("false", "False")
+    return _ast.literal_eval(re.sub(r"\s+", " ", txt))
+
+
 def run(ctx):
     info = ctx.coq_props()
     r = vlib.rng(ctx.seed, "C26")
@@ -205,7 +214,7 @@ def run(ctx):
             outs = ctx.coq_eval_many(files)
             model = {}
             for ci in range(0, len(usable), 200):
-                vals = vlib.parse_coq_values(outs[f"c{ci}"])[0]
+                vals = parse_model(outs[f"c{ci}"])
                 for k, v in zip(usable[ci:ci + 200], vals):
                     model[k] = v
         except RuntimeError as e:
